@@ -265,4 +265,233 @@ theorem rendered_int_plain {s : Str} {sh : List Nat} (its : List IntTok) (hok : 
     · decide
     · refine ⟨?_, ?_, ?_⟩ <;> (intro e; rw [e] at hd; exact absurd hd (by decide))
 
+/-! ### float elements -/
+
+/-- the literal is written as JSON allows: no `+` sign, an integer part without leading zero, digits behind the point -/
+def FloatD.Json (f : FloatD) : Prop :=
+  f.sg ≠ some false ∧ f.ip ≠ [] ∧ (1 < f.ip.length → f.ip.head? ≠ some '0') ∧ (∀ x, f.fp = some x → x ≠ [])
+
+theorem jsonNumber_neg (c : Char) (r : Str) (hc : c ≠ '-') : jsonNumber ('-' :: c :: r) = jsonNumber (c :: r) := by
+  unfold jsonNumber
+  simp only []
+  rw [jsonNumber.match_1.eq_2 _ (c :: r) _ _ (fun t h => hc (List.cons.inj h).1)]
+
+theorem expTail_ok (es : Option Bool) (ed : Str) (hed : allDigits ed = true) :
+    allDigits (splitSign (signText es ++ ed)).2 = true := by
+  obtain ⟨hne, hall⟩ := allDigits_iff hed
+  have hh : ed = [] ∨ ∃ c r, ed = c :: r ∧ c ≠ '+' ∧ c ≠ '-' := by
+    cases hd : ed with
+    | nil => exact .inl rfl
+    | cons c r =>
+      have := digit_plain (hall c (by simp [hd]))
+      exact .inr ⟨c, r, rfl, this.2.1, this.2.2.1⟩
+  rw [splitSign_sign es ed hh]
+  exact hed
+
+theorem jsonNumber_floatBody (f : FloatD) (hf : f.Ok) (hj : f.Json) :
+    ∃ b, jsonNumber (f.mantText ++ f.expText) = some b := by
+  obtain ⟨hip, hfp, _, hex⟩ := hf
+  obtain ⟨_, hne, hz0, hfpne⟩ := hj
+  obtain ⟨c0, r0, hipc⟩ : ∃ c0 r0, f.ip = c0 :: r0 := by
+    cases h : f.ip with
+    | nil => exact absurd h hne
+    | cons a b => exact ⟨a, b, rfl⟩
+  have hc0 : c0 ≠ '-' := (digit_plain (hip c0 (by simp [hipc]))).2.2.1
+  have he : f.ip.isEmpty = false := by rw [hipc]; rfl
+  have hz : (decide (f.ip.length > 1) && f.ip.head? == some '0') = false := by
+    by_cases hl : 1 < f.ip.length
+    · have := hz0 hl
+      simp [this]
+    · simp [hl]
+  -- generic step: strip the integer part
+  have key : ∀ tail : Str, (tail = [] ∨ ∃ x r, tail = x :: r ∧ Char.isDigit x = false) →
+      jsonNumber (f.ip ++ tail) =
+        (match tail with
+         | [] => some true
+         | '.' :: fr =>
+           let fp := fr.takeWhile Char.isDigit
+           if fp.isEmpty then none else
+           match fr.dropWhile Char.isDigit with
+           | [] => some false
+           | c :: ex => if (c == 'e' || c == 'E') && allDigits (splitSign ex).2 then some false else none
+         | c :: ex => if (c == 'e' || c == 'E') && allDigits (splitSign ex).2 then some false else none) := by
+    intro tail ht
+    unfold jsonNumber
+    simp only []
+    rw [jsonNumber.match_1.eq_2 _ (f.ip ++ tail) _ _ (fun t h => by
+      rw [hipc] at h; exact hc0 (List.cons.inj h).1)]
+    rw [takeWhile_append_gen Char.isDigit f.ip tail hip ht, dropWhile_append_gen Char.isDigit f.ip tail hip ht]
+    simp only [he, hz, Bool.or_self, Bool.false_eq_true, if_false]
+    rfl
+  cases hfpc : f.fp with
+  | none =>
+    cases hexc : f.ex with
+    | none =>
+      refine ⟨true, ?_⟩
+      have := key [] (.inl rfl)
+      simpa [FloatD.mantText, FloatD.expText, hfpc, hexc] using this
+    | some p =>
+      obtain ⟨cap, es, ed⟩ := p
+      have hed := expTail_ok es ed (hex cap es ed hexc).1
+      refine ⟨false, ?_⟩
+      cases cap with
+      | true =>
+        have := key ('E' :: (signText es ++ ed)) (.inr ⟨_, _, rfl, by decide⟩)
+        simp only [FloatD.mantText, FloatD.expText, hfpc, hexc, List.append_nil, if_true]
+        rw [this]
+        simp [hed]
+      | false =>
+        have := key ('e' :: (signText es ++ ed)) (.inr ⟨_, _, rfl, by decide⟩)
+        simp only [FloatD.mantText, FloatD.expText, hfpc, hexc, List.append_nil, Bool.false_eq_true, if_false]
+        rw [this]
+        simp [hed]
+  | some x =>
+    have hx := hfp x hfpc
+    have hxne := hfpne x hfpc
+    have hxe : x.isEmpty = false := by cases h : x with | nil => exact absurd h hxne | cons _ _ => rfl
+    refine ⟨false, ?_⟩
+    cases hexc : f.ex with
+    | none =>
+      have := key ('.' :: x) (.inr ⟨_, _, rfl, by decide⟩)
+      simp only [FloatD.mantText, FloatD.expText, hfpc, hexc, List.append_nil]
+      rw [this]
+      have htw : x.takeWhile Char.isDigit = x := by simpa using takeWhile_append_gen Char.isDigit x [] hx (.inl rfl)
+      have hdw : x.dropWhile Char.isDigit = [] := by simpa using dropWhile_append_gen Char.isDigit x [] hx (.inl rfl)
+      simp [htw, hdw, hxe]
+    | some p =>
+      obtain ⟨cap, es, ed⟩ := p
+      have hed := expTail_ok es ed (hex cap es ed hexc).1
+      cases cap with
+      | true =>
+        have ht : ('E' :: (signText es ++ ed)) = [] ∨ ∃ a r, ('E' :: (signText es ++ ed)) = a :: r ∧ Char.isDigit a = false :=
+          .inr ⟨_, _, rfl, by decide⟩
+        have := key ('.' :: (x ++ 'E' :: (signText es ++ ed))) (.inr ⟨_, _, rfl, by decide⟩)
+        simp only [FloatD.mantText, FloatD.expText, hfpc, hexc, if_true, List.append_assoc, List.cons_append]
+        rw [this]
+        simp only [takeWhile_append_gen Char.isDigit x _ hx ht, dropWhile_append_gen Char.isDigit x _ hx ht, hxe]
+        simp [hed]
+      | false =>
+        have ht : ('e' :: (signText es ++ ed)) = [] ∨ ∃ a r, ('e' :: (signText es ++ ed)) = a :: r ∧ Char.isDigit a = false :=
+          .inr ⟨_, _, rfl, by decide⟩
+        have := key ('.' :: (x ++ 'e' :: (signText es ++ ed))) (.inr ⟨_, _, rfl, by decide⟩)
+        simp only [FloatD.mantText, FloatD.expText, hfpc, hexc, Bool.false_eq_true, if_false, List.append_assoc, List.cons_append]
+        rw [this]
+        simp only [takeWhile_append_gen Char.isDigit x _ hx ht, dropWhile_append_gen Char.isDigit x _ hx ht, hxe]
+        simp [hed]
+
+theorem floatD_chars (f : FloatD) (hf : f.Ok) :
+    ∀ c ∈ f.render, c.isDigit = true ∨ c = '-' ∨ c = '+' ∨ c = '.' ∨ c = 'e' ∨ c = 'E' := by
+  obtain ⟨hip, hfp, _, hex⟩ := hf
+  have hsign : ∀ (sg : Option Bool) (c : Char), c ∈ signText sg → c = '-' ∨ c = '+' := by
+    intro sg c hc
+    cases sg with
+    | none => simp [signText] at hc
+    | some b => cases b <;> simp [signText] at hc <;> simp [hc]
+  intro c hc
+  simp only [FloatD.render, FloatD.mantText, FloatD.expText, List.mem_append] at hc
+  rcases hc with hc | (hc | hc) | hc
+  · rcases hsign _ c hc with h | h
+    · exact .inr (.inl h)
+    · exact .inr (.inr (.inl h))
+  · exact .inl (hip c hc)
+  · cases hfpc : f.fp with
+    | none => rw [hfpc] at hc; simp at hc
+    | some x =>
+      rw [hfpc] at hc
+      simp only [List.mem_cons] at hc
+      rcases hc with rfl | hc
+      · simp
+      · exact .inl (hfp x hfpc c hc)
+  · cases hexc : f.ex with
+    | none => rw [hexc] at hc; simp at hc
+    | some p =>
+      obtain ⟨cap, es, ed⟩ := p
+      rw [hexc] at hc
+      simp only [List.mem_cons, List.mem_append] at hc
+      rcases hc with rfl | hc | hc
+      · cases cap <;> simp
+      · rcases hsign _ c hc with h | h
+        · exact .inr (.inl h)
+        · exact .inr (.inr (.inl h))
+      · exact .inl ((allDigits_iff (hex cap es ed hexc).1).2 c hc)
+
+theorem floatD_json_head (f : FloatD) (hf : f.Ok) (hj : f.Json) :
+    ∃ c r, f.mantText ++ f.expText = c :: r ∧ c.isDigit = true := by
+  cases h : f.ip with
+  | nil => exact absurd h hj.2.1
+  | cons a b =>
+    exact ⟨a, (f.mantText ++ f.expText).drop 1, by simp [FloatD.mantText, h], hf.1 a (by simp [h])⟩
+
+theorem jsonNumber_floatD (f : FloatD) (hf : f.Ok) (hj : f.Json) : ∃ b, jsonNumber f.render = some b := by
+  obtain ⟨b, hb⟩ := jsonNumber_floatBody f hf hj
+  obtain ⟨c, r, hcr, hcd⟩ := floatD_json_head f hf hj
+  refine ⟨b, ?_⟩
+  cases hsg : f.sg with
+  | none => simpa [FloatD.render, signText, hsg] using hb
+  | some s =>
+    cases s with
+    | false => exact absurd hsg hj.1
+    | true =>
+      simp only [FloatD.render, signText, hsg, List.cons_append, List.nil_append]
+      rw [hcr, jsonNumber_neg c r (digit_plain hcd).2.2.1, ← hcr, hb]
+
+theorem floatD_tokOk (f : FloatD) (hf : f.Ok) (hj : f.Json) : TokOk f.render := by
+  refine ⟨?_, ?_⟩
+  · obtain ⟨c, r, hcr, hcd⟩ := floatD_json_head f hf hj
+    cases hsg : f.sg with
+    | none =>
+      refine ⟨c, r, by simp [FloatD.render, signText, hsg, hcr], ?_⟩
+      intro e; rw [e] at hcd; exact absurd hcd (by decide)
+    | some s =>
+      cases s with
+      | false => exact ⟨'+', f.mantText ++ f.expText, by simp [FloatD.render, signText, hsg], by decide⟩
+      | true => exact ⟨'-', f.mantText ++ f.expText, by simp [FloatD.render, signText, hsg], by decide⟩
+  · intro x hx
+    rcases floatD_chars f hf x hx with hd | rfl | rfl | rfl | rfl | rfl
+    · have hw : isWs x = false := by
+        have := (digit_plain hd).1; simp only [Bool.or_eq_false_iff] at this; exact this.2
+      have h1 : x ≠ ',' := by intro he; rw [he] at hd; exact absurd hd (by decide)
+      have h2 : x ≠ ']' := by intro he; rw [he] at hd; exact absurd hd (by decide)
+      have h3 : x ≠ '[' := by intro he; rw [he] at hd; exact absurd hd (by decide)
+      simp [isDelim, hw, h1, h2, h3]
+    all_goals decide
+
+/-- `np.array(json value, dtype=float)` on a number token: the rational number the literal denotes -/
+theorem tokAtom_floatD (f : FloatD) (hf : f.Ok) (hj : f.Json) : tokAtom .float (.bare f.render) = .ok (.num f.value) := by
+  obtain ⟨b, hb⟩ := jsonNumber_floatD f hf hj
+  have hne : ∀ x : Char, x.isDigit = false → x ≠ '-' → f.render.head? ≠ some x := by
+    intro x hx hx2
+    obtain ⟨c, r, hcr, hcd⟩ := floatD_json_head f hf hj
+    cases hsg : f.sg with
+    | none =>
+      simp only [FloatD.render, signText, hsg, List.nil_append, hcr, List.head?_cons, ne_eq, Option.some.injEq]
+      intro he; rw [he] at hcd; rw [hcd] at hx; cases hx
+    | some s =>
+      cases s with
+      | false => exact absurd hsg hj.1
+      | true =>
+        simp only [FloatD.render, signText, hsg, List.cons_append, List.head?_cons, ne_eq, Option.some.injEq]
+        exact fun he => hx2 he.symm
+  have h1 := ne_of_head f.render "true".toList 't' rfl (hne 't' (by decide) (by decide))
+  have h2 := ne_of_head f.render "false".toList 'f' rfl (hne 'f' (by decide) (by decide))
+  have h3 := ne_of_head f.render "null".toList 'n' rfl (hne 'n' (by decide) (by decide))
+  simp only [tokAtom, h1, h2, h3, Bool.false_eq_true, if_false, Bool.or_self, hb, castFloat_lit f hf]
+  rfl
+
+/-- a float array text contains no `#`, backslash, `$` -/
+theorem rendered_float_plain {s : Str} {sh : List Nat} (fs : List FloatD) (hok : ∀ f ∈ fs, f.Ok)
+    (h : Rendered s sh (fs.map (fun f => Tok.bare f.render))) :
+    ∀ ch ∈ s, ch ≠ '#' ∧ ch ≠ '\\' ∧ ch ≠ '$' := by
+  intro ch hch
+  rcases rendered_chars h ch hch with rfl | rfl | rfl | ⟨t, ht, hct⟩
+  · decide
+  · decide
+  · decide
+  · obtain ⟨f, hf, he⟩ := List.mem_map.mp ht
+    have he' : f.render = t := by injection he
+    subst he'
+    rcases floatD_chars f (hok f hf) ch hct with hd | rfl | rfl | rfl | rfl | rfl
+    · refine ⟨?_, ?_, ?_⟩ <;> (intro e; rw [e] at hd; exact absurd hd (by decide))
+    all_goals decide
+
 end SciVerif.C13
